@@ -102,6 +102,19 @@ func analyse(p *props.Property, tier string, overlay map[string][]byte) (c *core
 			err = fmt.Errorf("checker panic: %v\n%s", r, debug.Stack())
 		}
 	}()
+	if ov := os.Getenv("SHVERIF_OVERLAY"); ov != "" && overlay == nil {
+		// development aid (benign-edit controls): "repo/rel/file.go=/path/to/replacement;..."
+		overlay = map[string][]byte{}
+		for _, kv := range strings.Split(ov, ";") {
+			if i := strings.Index(kv, "="); i > 0 {
+				b, rerr := os.ReadFile(kv[i+1:])
+				if rerr != nil {
+					return nil, res, rerr
+				}
+				overlay[filepath.Join(core.RepoDir(), kv[:i])] = b
+			}
+		}
+	}
 	pats := p.Pkgs
 	if tier == "thorough" {
 		pats = []string{"./..."}
